@@ -281,6 +281,9 @@ static void
 coap_replace_upper_lower(coap_optlist_t *optlist) {
   size_t i;
 
+  if (!optlist)
+    return;
+
   for (i = 0; i < optlist->length; i++) {
     if (optlist->data[i] >= 'A' && optlist->data[i] <= 'Z') {
       optlist->data[i] += 'a' - 'A';
@@ -692,6 +695,9 @@ void
 coap_replace_percents(coap_optlist_t *optlist) {
   size_t i;
   size_t o = 0;
+
+  if (!optlist)
+    return;
 
   for (i = 0; i < optlist->length; i++) {
     if (optlist->data[i] == '%' && optlist->length - i >= 3) {
